@@ -18,6 +18,7 @@ Notation olin := (olin vt).
 Notation mul_c := (mul_c vt).
 Notation add_c := (add_c vt).
 Notation build := (build vt).
+Notation scalar_add_ok := (scalar_add_ok vt).
 Notation vec := (list T).
 Notation oexpr := (oexpr T).
 Notation sexpr := (sexpr T).
@@ -710,6 +711,288 @@ Proof. intros s o L E NF. apply (flag_complete_gen s o L E (rvec_ok_of_no_sf s N
 Theorem flag_complete_repaired : v_frvec_lin vt = true ->
   forall s o, sleaves_ok s -> build s = Ok o -> slin s = true -> olin o = true.
 Proof. intros V s o L E. apply (flag_complete_gen s o L E (rvec_ok_of_variant s V)). Qed.
+
+(* ------------------------------------------------------------------ *)
+(* ACCEPTANCE: the overloads accept exactly the expressions that are well-typed by the
+   documented rules [wt] (up to the recorded finding about scalar addition). *)
+Lemma mkLScal_func fn (a : oexpr) c o : mkLScal fn a c = Ok o -> ofunc o = fn.
+Proof. intros E. destruct (mkLScal_cases _ _ _ _ E) as [(f' & a' & c' & -> & ->)| ->]; reflexivity. Qed.
+Lemma mkRScal_func fn (a : oexpr) c o : mkRScal fn a c = Ok o -> ofunc o = fn.
+Proof. intros E. destruct (mkRScal_cases _ _ _ _ E) as [(f' & a' & c' & -> & ->)| ->]; reflexivity. Qed.
+Lemma rmul_c_func (a : oexpr) c o : rmul_c a c = Ok o -> ofunc o = ofunc a.
+Proof.
+  unfold rmul_c, mkFLScal. destruct (ofunc a) eqn:F.
+  - destruct (c =? nzero); intros E; [inversion E; reflexivity | apply (mkLScal_func _ _ _ _ E)].
+  - apply mkLScal_func.
+Qed.
+Lemma mul_c_func (a : oexpr) c o : mul_c a c = Ok o -> ofunc o = ofunc a.
+Proof.
+  unfold Model.mul_c, mkFLScal, mkFRScal. destruct (ofunc a) eqn:F.
+  - destruct (c =? nzero); [intros E; inversion E; reflexivity|].
+    destruct (Model.olin vt a); [apply mkLScal_func | apply mkRScal_func].
+  - assert (G : (if Model.olin vt a then rmul_c a c else mkRScal false a c) = Ok o -> ofunc o = false).
+    { destruct (Model.olin vt a); intros E; [rewrite (rmul_c_func _ _ _ E); exact F | apply (mkRScal_func _ _ _ _ E)]. }
+    destruct a; try exact G. apply mkRScal_func.
+Qed.
+Lemma mkSum_func fn (a b : oexpr) o : mkSum fn a b = Ok o -> ofunc o = fn.
+Proof.
+  unfold mkSum. destruct (sp_eqb (oran a) (oran b)); cbn [negb]; [|discriminate].
+  destruct (sp_eqb (odom a) (odom b)); cbn [negb]; [|discriminate]. intros E; inversion E; reflexivity.
+Qed.
+Lemma subclass_radd_func (a b : oexpr) : subclass_radd (ocls b) (ocls a) = true -> ofunc a = false.
+Proof.
+  destruct a; cbn [ocls ofunc]; try (destruct fn); destruct b; cbn [ocls]; try (destruct fn);
+    cbn [subclass_radd]; intros E; try discriminate; reflexivity.
+Qed.
+Lemma add_op_func (a b : oexpr) o : add_op a b = Ok o -> ofunc o = ofunc a && ofunc b.
+Proof.
+  unfold add_op, mkFSum. destruct (subclass_radd (ocls b) (ocls a)) eqn:S.
+  - intros E. rewrite (mkSum_func _ _ _ _ E), (subclass_radd_func _ _ S). reflexivity.
+  - destruct (ofunc a && ofunc b) eqn:F.
+    + apply andb_true_iff in F as [Fa Fb]. rewrite Fa, Fb. cbn. apply mkSum_func.
+    + apply mkSum_func.
+Qed.
+Lemma pow_loop_func k (self op : oexpr) o : pow_loop k self op = Ok o -> ofunc o = match k with O => ofunc op | _ => false end.
+Proof.
+  revert op o; induction k as [|k IH]; intros op o E; cbn [pow_loop] in E; [inversion E; reflexivity|].
+  unfold bind in E. destruct (mkComp false self op) as [op'|] eqn:M; [|discriminate].
+  rewrite (IH _ _ E). destruct k; [|reflexivity].
+  unfold mkComp in M. destruct (sp_eqb _ _); inversion M; reflexivity.
+Qed.
+
+Theorem build_func : forall s o, build s = Ok o -> ofunc o = sfunc s.
+Proof.
+  induction s as [l|d c|d|a IHa b IHb|a IHa b IHb|a IHa b IHb|a IHa|a IHa n|a IHa v|v a IHa|a IHa v
+                 |v a IHa|a IHa v|v a IHa|a IHa c|c a IHa|a IHa c|c a IHa|a IHa c|c a IHa|a IHa c
+                 |a IHa b IHb];
+    intros o E; cbn [Model.build] in E; cbn [sfunc]; try (inversion E; reflexivity); unbind E.
+  - rewrite (add_op_func _ _ _ E), (IHa _ eq_refl), (IHb _ eq_refl). reflexivity.
+  - rewrite (add_op_func _ _ _ E), (rmul_c_func _ _ _ B1), (IHa _ eq_refl), (IHb _ eq_refl). reflexivity.
+  - unfold mul_op, mkFComp, mkComp in E. rewrite <- (IHa _ eq_refl).
+    destruct (ofunc o0); destruct (sp_eqb _ _); inversion E; reflexivity.
+  - rewrite (rmul_c_func _ _ _ E). apply IHa; reflexivity.
+  - unfold pow_op in E. destruct (n <=? 0)%Z eqn:Z0; [discriminate|]. apply Z.leb_gt in Z0.
+    rewrite (pow_loop_func _ _ _ _ E), <- (IHa _ eq_refl).
+    destruct (Z.eqb_spec n 1) as [->|Hn].
+    + cbn. rewrite andb_true_r. reflexivity.
+    + rewrite andb_false_r. destruct (Z.to_nat n - 1)%nat eqn:K; [lia|reflexivity].
+  - unfold add_v, mkVecSum in E. destruct (in_sp v (oran o0)); [|discriminate].
+    destruct (oran o0); inversion E; reflexivity.
+  - unfold add_v, mkVecSum in E. destruct (in_sp v (oran o0)); [|discriminate].
+    destruct (oran o0); inversion E; reflexivity.
+  - unfold add_v, mkVecSum in E. destruct (in_sp _ (oran o0)); [|discriminate].
+    destruct (oran o0); inversion E; reflexivity.
+  - unfold add_v, mkVecSum in E. destruct (in_sp v (oran o1)); [|discriminate].
+    destruct (oran o1); inversion E; reflexivity.
+  - unfold mul_v in E. destruct (in_sp v (odom o0)); inversion E. cbn [ofunc]. apply IHa; reflexivity.
+  - unfold rmul_v in E. destruct (in_sp v (oran o0)); [inversion E; reflexivity|].
+    destruct (oran o0); inversion E; reflexivity.
+  - unfold Model.add_c in E. rewrite <- (IHa _ eq_refl). destruct (ofunc o0); [inversion E; reflexivity|].
+    destruct (oran o0); [inversion E; reflexivity|]. destruct (v_vecsum_field vt); inversion E; reflexivity.
+  - unfold Model.add_c in E. rewrite <- (IHa _ eq_refl). destruct (ofunc o0); [inversion E; reflexivity|].
+    destruct (oran o0); [inversion E; reflexivity|]. destruct (v_vecsum_field vt); inversion E; reflexivity.
+  - unfold Model.add_c in E. rewrite <- (IHa _ eq_refl). destruct (ofunc o0); [inversion E; reflexivity|].
+    destruct (oran o0); [inversion E; reflexivity|]. destruct (v_vecsum_field vt); inversion E; reflexivity.
+  - unfold Model.add_c in E. rewrite <- (IHa _ eq_refl), <- (rmul_c_func _ _ _ B0).
+    destruct (ofunc o1); [inversion E; reflexivity|].
+    destruct (oran o1); [inversion E; reflexivity|]. destruct (v_vecsum_field vt); inversion E; reflexivity.
+  - rewrite (mul_c_func _ _ _ E). apply IHa; reflexivity.
+  - rewrite (rmul_c_func _ _ _ E). apply IHa; reflexivity.
+  - destruct (c =? nzero); [discriminate|]. rewrite (mul_c_func _ _ _ E). apply IHa; reflexivity.
+  - unfold mkPtw in E. destruct (sp_eqb (oran o0) (oran o1)); cbn [negb] in E; [|discriminate].
+    destruct (sp_eqb (odom o0) (odom o1)); cbn [negb] in E; [|discriminate]. inversion E; reflexivity.
+Qed.
+
+(* accepted => well-typed by the documented rules (the overloads never accept an ill-typed form) *)
+Theorem accept_sound : forall s o, sleaves_ok s -> build s = Ok o -> wt s = true.
+Proof.
+  induction s as [l|d c|d|a IHa b IHb|a IHa b IHb|a IHa b IHb|a IHa|a IHa n|a IHa v|v a IHa|a IHa v
+                 |v a IHa|a IHa v|v a IHa|a IHa c|c a IHa|a IHa c|c a IHa|a IHa c|c a IHa|a IHa c
+                 |a IHa b IHb];
+    intros o L E; cbn [Model.build] in E; cbn [sleaves_ok] in L; cbn [wt]; try reflexivity; unbind E.
+  - destruct L as [La Lb]. destruct (build_sem _ _ La B) as (Wa & Da & Ra & _).
+    destruct (build_sem _ _ Lb B0) as (Wb & Db & Rb & _).
+    destruct (add_op_sem _ _ _ Wa Wb E) as (_ & Er & Ed).
+    rewrite (IHa _ La eq_refl), (IHb _ Lb eq_refl). cbn [andb].
+    apply andb_true_iff; split; apply sp_eqb_eq; congruence.
+  - destruct L as [La Lb]. destruct (build_sem _ _ La B) as (Wa & Da & Ra & _).
+    destruct (build_sem _ _ Lb B0) as (Wb & Db & Rb & _).
+    destruct (rmul_c_sem _ _ _ Wb B1) as (Wn & Dn & Rn & _).
+    destruct (add_op_sem _ _ _ Wa Wn E) as (_ & Er & Ed).
+    rewrite (IHa _ La eq_refl), (IHb _ Lb eq_refl). cbn [andb].
+    apply andb_true_iff; split; apply sp_eqb_eq; congruence.
+  - destruct L as [La Lb]. destruct (build_sem _ _ La B) as (Wa & Da & Ra & _).
+    destruct (build_sem _ _ Lb B0) as (Wb & Db & Rb & _).
+    destruct (mul_op_sem _ _ _ Wa Wb E) as (_ & Er).
+    rewrite (IHa _ La eq_refl), (IHb _ Lb eq_refl). cbn [andb]. apply sp_eqb_eq; congruence.
+  - apply (IHa _ L eq_refl).
+  - destruct (build_sem _ _ L B) as (Wa & Da & Ra & _).
+    destruct (pow_op_sem _ _ _ Wa E) as (Hn & _ & Hsq).
+    rewrite (IHa _ L eq_refl). cbn [andb]. apply andb_true_iff; split; [apply Z.ltb_lt; assumption|].
+    destruct (Z.eqb_spec n 1) as [->|Hn1]; [reflexivity|]. cbn [orb].
+    apply sp_eqb_eq. rewrite <- Da, <- Ra. apply Hsq. lia.
+  - destruct (build_sem _ _ L B) as (Wa & Da & Ra & _). destruct (add_v_sem _ _ _ Wa E) as (_ & Er).
+    rewrite (IHa _ L eq_refl). cbn [andb]. apply in_sp_eq. congruence.
+  - destruct (build_sem _ _ L B) as (Wa & Da & Ra & _). destruct (add_v_sem _ _ _ Wa E) as (_ & Er).
+    rewrite (IHa _ L eq_refl). cbn [andb]. apply in_sp_eq. congruence.
+  - destruct (build_sem _ _ L B) as (Wa & Da & Ra & _). destruct (add_v_sem _ _ _ Wa E) as (_ & Er).
+    rewrite (IHa _ L eq_refl). cbn [andb]. apply in_sp_eq. rewrite vscal_length in Er. congruence.
+  - destruct (build_sem _ _ L B) as (Wa & Da & Ra & _).
+    destruct (rmul_c_sem _ _ _ Wa B0) as (Wn & Dn & Rn & _). destruct (add_v_sem _ _ _ Wn E) as (_ & Er).
+    rewrite (IHa _ L eq_refl). cbn [andb]. apply in_sp_eq. congruence.
+  - destruct (build_sem _ _ L B) as (Wa & Da & Ra & _). destruct (mul_v_sem _ _ _ Wa E) as (_ & Ed).
+    rewrite (IHa _ L eq_refl). cbn [andb]. apply in_sp_eq. congruence.
+  - destruct (build_sem _ _ L B) as (Wa & Da & Ra & _).
+    rewrite (IHa _ L eq_refl). cbn [andb]. unfold rmul_v in E. rewrite Ra in E.
+    destruct (in_sp v (sran a)); [reflexivity|]. destruct (sran a); [discriminate|reflexivity].
+  - apply (IHa _ L eq_refl).
+  - apply (IHa _ L eq_refl).
+  - apply (IHa _ L eq_refl).
+  - apply (IHa _ L eq_refl).
+  - apply (IHa _ L eq_refl).
+  - apply (IHa _ L eq_refl).
+  - destruct (c =? nzero); [discriminate|]. rewrite (IHa _ L eq_refl). reflexivity.
+  - destruct L as [La Lb]. destruct (build_sem _ _ La B) as (Wa & Da & Ra & _).
+    destruct (build_sem _ _ Lb B0) as (Wb & Db & Rb & _).
+    destruct (mkPtw_sem _ _ _ Wa Wb E) as (_ & Er & Ed).
+    rewrite (IHa _ La eq_refl), (IHb _ Lb eq_refl). cbn [andb].
+    apply andb_true_iff; split; apply sp_eqb_eq; congruence.
+Qed.
+
+(* progress of each overload *)
+Lemma mkLScal_ok fn (a : oexpr) c : exists o, mkLScal fn a c = Ok o.
+Proof. unfold mkLScal; destruct a; eauto. Qed.
+Lemma mkRScal_ok fn (a : oexpr) c : exists o, mkRScal fn a c = Ok o.
+Proof. unfold mkRScal; destruct a; eauto. Qed.
+Lemma rmul_c_ok (a : oexpr) c : exists o, rmul_c a c = Ok o.
+Proof.
+  unfold rmul_c, mkFLScal. destruct (ofunc a); [destruct (c =? nzero); [eauto|]|]; apply mkLScal_ok.
+Qed.
+Lemma mul_c_ok (a : oexpr) c : exists o, mul_c a c = Ok o.
+Proof.
+  unfold Model.mul_c, mkFLScal, mkFRScal. destruct (ofunc a) eqn:F.
+  - destruct (c =? nzero); [eauto|]. destruct (Model.olin vt a); [apply mkLScal_ok | apply mkRScal_ok].
+  - assert (G : exists o, (if Model.olin vt a then rmul_c a c else mkRScal false a c) = Ok o)
+      by (destruct (Model.olin vt a); [apply rmul_c_ok | apply mkRScal_ok]).
+    destruct a; try exact G. apply mkRScal_ok.
+Qed.
+Lemma mkSum_ok fn (a b : oexpr) : oran a = oran b -> odom a = odom b -> exists o, mkSum fn a b = Ok o.
+Proof.
+  intros Er Ed. unfold mkSum. rewrite (proj2 (sp_eqb_eq _ _) Er), (proj2 (sp_eqb_eq _ _) Ed). cbn. eauto.
+Qed.
+Lemma add_op_ok (a b : oexpr) : oran a = oran b -> odom a = odom b -> exists o, add_op a b = Ok o.
+Proof.
+  intros Er Ed. unfold add_op, mkFSum. destruct (subclass_radd _ _); [apply mkSum_ok; congruence|].
+  destruct (ofunc a && ofunc b) eqn:F; [|apply mkSum_ok; assumption].
+  apply andb_true_iff in F as [-> ->]. cbn. apply mkSum_ok; assumption.
+Qed.
+Lemma mkComp_ok fn (a b : oexpr) : oran b = odom a -> exists o, mkComp fn a b = Ok o.
+Proof. intros Er. unfold mkComp. rewrite (proj2 (sp_eqb_eq _ _) Er). eauto. Qed.
+Lemma pow_loop_ok k (self op : oexpr) : oran self = odom self -> oran op = oran self ->
+  exists o, pow_loop k self op = Ok o.
+Proof.
+  revert op; induction k as [|k IH]; intros op Es Eo; cbn [pow_loop]; [eauto|].
+  destruct (mkComp_ok false self op ltac:(congruence)) as [op' M]. rewrite M. cbn [bind].
+  apply IH; [assumption|]. unfold mkComp in M. destruct (sp_eqb _ _); inversion M. reflexivity.
+Qed.
+
+(* well-typed by the documented rules => accepted, up to the recorded scalar-addition finding *)
+Theorem accept_complete : forall s, sleaves_ok s -> wt s = true -> scalar_add_ok s ->
+  exists o, build s = Ok o.
+Proof.
+  induction s as [l|d c|d|a IHa b IHb|a IHa b IHb|a IHa b IHb|a IHa|a IHa n|a IHa v|v a IHa|a IHa v
+                 |v a IHa|a IHa v|v a IHa|a IHa c|c a IHa|a IHa c|c a IHa|a IHa c|c a IHa|a IHa c
+                 |a IHa b IHb];
+    intros L W SA; cbn [sleaves_ok] in L; cbn [wt] in W; cbn [Model.scalar_add_ok] in SA; cbn [Model.build];
+    try (eexists; reflexivity).
+  - destruct L as [La Lb], SA as [Sa Sb]. apply andb_true_iff in W as [W Ed]. apply andb_true_iff in W as [W Er].
+    apply andb_true_iff in W as [Wa Wb]. apply sp_eqb_eq in Er, Ed.
+    destruct (IHa La Wa Sa) as [oa Ba], (IHb Lb Wb Sb) as [ob Bb]. rewrite Ba, Bb. cbn [bind].
+    destruct (build_sem _ _ La Ba) as (_ & Da & Ra & _). destruct (build_sem _ _ Lb Bb) as (_ & Db & Rb & _).
+    apply add_op_ok; congruence.
+  - destruct L as [La Lb], SA as [Sa Sb]. apply andb_true_iff in W as [W Ed]. apply andb_true_iff in W as [W Er].
+    apply andb_true_iff in W as [Wa Wb]. apply sp_eqb_eq in Er, Ed.
+    destruct (IHa La Wa Sa) as [oa Ba], (IHb Lb Wb Sb) as [ob Bb]. rewrite Ba, Bb. cbn [bind].
+    destruct (build_sem _ _ La Ba) as (_ & Da & Ra & _). destruct (build_sem _ _ Lb Bb) as (Wfb & Db & Rb & _).
+    destruct (rmul_c_ok ob neg1) as [nb Bn]. rewrite Bn. cbn [bind].
+    destruct (rmul_c_sem _ _ _ Wfb Bn) as (_ & Dn & Rn & _). apply add_op_ok; congruence.
+  - destruct L as [La Lb], SA as [Sa Sb]. apply andb_true_iff in W as [W Er].
+    apply andb_true_iff in W as [Wa Wb]. apply sp_eqb_eq in Er.
+    destruct (IHa La Wa Sa) as [oa Ba], (IHb Lb Wb Sb) as [ob Bb]. rewrite Ba, Bb. cbn [bind].
+    destruct (build_sem _ _ La Ba) as (_ & Da & Ra & _). destruct (build_sem _ _ Lb Bb) as (_ & Db & Rb & _).
+    unfold mul_op, mkFComp. destruct (ofunc oa); apply mkComp_ok; congruence.
+  - destruct (IHa L W SA) as [oa Ba]. rewrite Ba. cbn [bind]. apply rmul_c_ok.
+  - apply andb_true_iff in W as [W Hsq]. apply andb_true_iff in W as [Wa Hn]. apply Z.ltb_lt in Hn.
+    destruct (IHa L Wa SA) as [oa Ba]. rewrite Ba. cbn [bind].
+    destruct (build_sem _ _ L Ba) as (_ & Da & Ra & _).
+    unfold pow_op. destruct (n <=? 0)%Z eqn:Z0; [apply Z.leb_le in Z0; lia|].
+    destruct (Z.eqb_spec n 1) as [->|Hn1]; [exists oa; reflexivity|].
+    cbn [orb] in Hsq. apply sp_eqb_eq in Hsq.
+    apply pow_loop_ok; congruence.
+  - apply andb_true_iff in W as [Wa Iv]. destruct (IHa L Wa SA) as [oa Ba]. rewrite Ba. cbn [bind].
+    destruct (build_sem _ _ L Ba) as (_ & Da & Ra & _). unfold add_v, mkVecSum. rewrite Ra, Iv.
+    apply in_sp_eq in Iv. rewrite Iv. eauto.
+  - apply andb_true_iff in W as [Wa Iv]. destruct (IHa L Wa SA) as [oa Ba]. rewrite Ba. cbn [bind].
+    destruct (build_sem _ _ L Ba) as (_ & Da & Ra & _). unfold add_v, mkVecSum. rewrite Ra, Iv.
+    apply in_sp_eq in Iv. rewrite Iv. eauto.
+  - apply andb_true_iff in W as [Wa Iv]. destruct (IHa L Wa SA) as [oa Ba]. rewrite Ba. cbn [bind].
+    destruct (build_sem _ _ L Ba) as (_ & Da & Ra & _). unfold add_v, mkVecSum. rewrite Ra.
+    apply in_sp_eq in Iv. rewrite Iv. cbn [in_sp]. rewrite vscal_length, Nat.eqb_refl. eauto.
+  - apply andb_true_iff in W as [Wa Iv]. destruct (IHa L Wa SA) as [oa Ba]. rewrite Ba. cbn [bind].
+    destruct (build_sem _ _ L Ba) as (Wfa & Da & Ra & _).
+    destruct (rmul_c_ok oa neg1) as [na Bn]. rewrite Bn. cbn [bind].
+    destruct (rmul_c_sem _ _ _ Wfa Bn) as (_ & Dn & Rn & _). unfold add_v, mkVecSum. rewrite Rn, Ra, Iv.
+    apply in_sp_eq in Iv. rewrite Iv. eauto.
+  - apply andb_true_iff in W as [Wa Iv]. destruct (IHa L Wa SA) as [oa Ba]. rewrite Ba. cbn [bind].
+    destruct (build_sem _ _ L Ba) as (_ & Da & Ra & _). unfold mul_v. rewrite Da, Iv. eauto.
+  - apply andb_true_iff in W as [Wa Iv]. destruct (IHa L Wa SA) as [oa Ba]. rewrite Ba. cbn [bind].
+    destruct (build_sem _ _ L Ba) as (_ & Da & Ra & _). unfold rmul_v. rewrite Ra.
+    destruct (in_sp v (sran a)); [eauto|]. cbn [orb] in Iv. apply sp_eqb_eq in Iv. rewrite Iv. eauto.
+  - destruct SA as [Sc Sa]. destruct (IHa L W Sa) as [oa Ba]. rewrite Ba. cbn [bind].
+    destruct (build_sem _ _ L Ba) as (_ & Da & Ra & _). unfold Model.add_c.
+    rewrite (build_func _ _ Ba), Ra. destruct (sfunc a); [eauto|]. destruct (sran a); [eauto|].
+    destruct Sc as [-> | [F | F]]; [eauto | discriminate | congruence].
+  - destruct SA as [Sc Sa]. destruct (IHa L W Sa) as [oa Ba]. rewrite Ba. cbn [bind].
+    destruct (build_sem _ _ L Ba) as (_ & Da & Ra & _). unfold Model.add_c.
+    rewrite (build_func _ _ Ba), Ra. destruct (sfunc a); [eauto|]. destruct (sran a); [eauto|].
+    destruct Sc as [-> | [F | F]]; [eauto | discriminate | congruence].
+  - destruct SA as [Sc Sa]. destruct (IHa L W Sa) as [oa Ba]. rewrite Ba. cbn [bind].
+    destruct (build_sem _ _ L Ba) as (_ & Da & Ra & _). unfold Model.add_c.
+    rewrite (build_func _ _ Ba), Ra. destruct (sfunc a); [eauto|]. destruct (sran a); [eauto|].
+    destruct Sc as [-> | [F | F]]; [eauto | discriminate | congruence].
+  - destruct SA as [Sc Sa]. destruct (IHa L W Sa) as [oa Ba]. rewrite Ba. cbn [bind].
+    destruct (build_sem _ _ L Ba) as (Wfa & Da & Ra & _).
+    destruct (rmul_c_ok oa neg1) as [na Bn]. rewrite Bn. cbn [bind].
+    destruct (rmul_c_sem _ _ _ Wfa Bn) as (_ & Dn & Rn & _). unfold Model.add_c.
+    rewrite (rmul_c_func _ _ _ Bn), (build_func _ _ Ba), Rn, Ra.
+    destruct (sfunc a); [eauto|]. destruct (sran a); [eauto|].
+    destruct Sc as [-> | [F | F]]; [eauto | discriminate | congruence].
+  - destruct (IHa L W SA) as [oa Ba]. rewrite Ba. cbn [bind]. apply mul_c_ok.
+  - destruct (IHa L W SA) as [oa Ba]. rewrite Ba. cbn [bind]. apply rmul_c_ok.
+  - apply andb_true_iff in W as [Wa Hc]. destruct (IHa L Wa SA) as [oa Ba]. rewrite Ba. cbn [bind].
+    destruct (c =? nzero); [discriminate|]. apply mul_c_ok.
+  - destruct L as [La Lb], SA as [Sa Sb]. apply andb_true_iff in W as [W Ed]. apply andb_true_iff in W as [W Er].
+    apply andb_true_iff in W as [Wa Wb]. apply sp_eqb_eq in Er, Ed.
+    destruct (IHa La Wa Sa) as [oa Ba], (IHb Lb Wb Sb) as [ob Bb]. rewrite Ba, Bb. cbn [bind].
+    destruct (build_sem _ _ La Ba) as (_ & Da & Ra & _). destruct (build_sem _ _ Lb Bb) as (_ & Db & Rb & _).
+    unfold mkPtw. rewrite (proj2 (sp_eqb_eq (oran oa) (oran ob))), (proj2 (sp_eqb_eq (odom oa) (odom ob)))
+      by congruence. cbn. eauto.
+Qed.
+
+Lemma scalar_add_ok_of_variant (s : sexpr) : v_vecsum_field vt = true -> scalar_add_ok s.
+Proof. intros V; induction s; cbn [Model.scalar_add_ok]; tauto. Qed.
+
+(* the property in one statement: a well-typed expression of any depth IS accepted and
+   evaluates, out-of-place and in-place, to the table value *)
+Theorem well_typed_evaluates : forall s, sleaves_ok s -> wt s = true -> scalar_add_ok s ->
+  exists o, build s = Ok o /\ odom o = sdom s /\ oran o = sran s /\ ofunc o = sfunc s /\
+    forall x, length x = dim (sdom s) -> eval o x = denote s x /\ eval_ip o x = denote s x.
+Proof.
+  intros s L W SA. destruct (accept_complete s L W SA) as [o E]. exists o.
+  destruct (build_sem s o L E) as (_ & D & R & _).
+  split; [assumption|]. split; [assumption|]. split; [assumption|]. split; [apply build_func; assumption|].
+  apply (build_sound s o L E).
+Qed.
 
 (* ------------------------------------------------------------------ *)
 (* the concrete pool of C04/Model.v meets the leaf premise (so it is satisfiable, and the
